@@ -280,6 +280,13 @@ def execute_refusal(case, out):
     started = set(m['id'] for m in wire() if m['t'] == 'XFER_SEGMENT')
     situation = 'sent' if int(target) in ended else ('mid' if int(target) in started else 'queued')
     out.label('refused-when:' + situation)
+    # a transfer that has not started is unknown to the peer (its ID has never been on the wire): the refusal is an
+    # out-of-place message (C17), the transfer is unaffected, and the peer goes on to acknowledge it like the others
+    # (what counts is whether the session layer has started it: a first segment waiting in the connection buffer behind
+    # a full pipe is as good as sent, the endpoint cannot know how far TCP got)
+    void = int(target) in hdl._tx_map and hdl._tx_map[int(target)] in hdl._tx_pend_start
+    if void:
+        out.label('refusal-names-unstarted-transfer')
     world.peer_send(r.encode({'t': 'XFER_REFUSE', 'reason': 2, 'id': int(target)}))
     peer_reads()
     # the peer now acknowledges every segment (of the refused transfer only if ack_after)
@@ -294,7 +301,7 @@ def execute_refusal(case, out):
             cum[seg['id']] = cum.get(seg['id'], 0) + len(seg['data']) // 2
             if idx >= acked:
                 acked = idx + 1
-                if str(seg['id']) == target and not case.get('ack_after'):
+                if str(seg['id']) == target and not case.get('ack_after') and not void:
                     continue
                 try:
                     world.peer_send(r.encode({'t': 'XFER_ACK', 'flags': seg['flags'], 'id': seg['id'], 'length': cum[seg['id']]}))
@@ -321,8 +328,11 @@ def execute_refusal(case, out):
         if len(results) > 1:
             out.fail('finished-twice', 'send_bundle_finished was signalled %d times for transfer %s: %s (%s)' % (len(results), bid, results, desc))
         elif not results:
-            out.fail('never-finished', 'transfer %s has no finished signal although it was %s (%s)' % (bid, 'refused' if bid == target else 'acknowledged', desc))
-        elif bid == target and results[0] == 'success' and situation != 'sent':
+            out.fail('never-finished', 'transfer %s has no finished signal although it was %s (%s)' % (bid, 'refused' if bid == target and not void else 'acknowledged', desc))
+        elif bid == target and void and results[0] != 'success':
+            out.fail('unstarted-transfer-affected', 'transfer %s had not started when the peer named it in a refusal; it was sent and acknowledged '
+                     'completely afterwards, yet finished as %r (%s)' % (bid, results[0], desc))
+        elif bid == target and results[0] == 'success' and situation != 'sent' and not void:
             out.fail('refused-reported-success', 'transfer %s was refused before its last segment left, yet reported %r (%s)' % (bid, results[0], desc))
         elif bid != target and results[0] != 'success':
             out.fail('other-transfer-affected', 'transfer %s was acknowledged completely but finished as %r (%s)' % (bid, results[0], desc))
